@@ -221,6 +221,102 @@ fn sweep_partial_ties(tabs: &Tables, rec: &Recorder, all_days: bool, kf1_open: b
     t
 }
 
+/// the rule evaluated behind a transition table in a zone with leap seconds (the rule works on UTC instants, the table on the
+/// leap-counting scale): one table transition in 2001, leap records whose UTC instants sit at a rule transition -1/0/+1 in
+/// every (previous correction, step) combination, lookups -3..+3 around every rule transition of the next years
+fn sweep_behind_table_with_leaps(cyc: &Cycle, tabs: &Tables, rec: &Recorder) -> Tally {
+    const DAY28: i64 = 28 * 86400;
+    let days = [Day::M(3, 2, 0), Day::M(11, 1, 0), Day::J(60), Day::Z(59), Day::J(1), Day::M(10, 5, 0)];
+    let combos = quick_combos();
+    let mut specs: Vec<RuleSpec> = vec![];
+    for (i, &a) in days.iter().enumerate() {
+        for (j, &b) in days.iter().enumerate() {
+            if i != j {
+                for k in [0usize, 1, 2, 5] {
+                    let (st, et, o) = combos[k];
+                    specs.push(spec(a, b, st, et, o));
+                }
+            }
+        }
+    }
+    let t = specs
+        .par_iter()
+        .map(|r| {
+            let mut tl = Tally::default();
+            let res = guard(|| {
+                let mut tl = Tally::default();
+                let (ms, md) = (std_type(r), dst_type(r));
+                if alt(r, &ms, &md).is_err() {
+                    return tl;
+                }
+                let line = Timeline::from_tables(r, tabs.tab(r.start), tabs.tab(r.end));
+                let class = line.classify();
+                if !matches!(class, Class::StartFirst | Class::EndFirst) {
+                    return tl;
+                }
+                let rule = MRule::alt(cyc, *r, ms, md);
+                let y = 2010i64;
+                for x in [line.sy(y), line.ey(y)] {
+                    for (c0, step) in [(0i32, 1i32), (0, -1), (1, 1), (1, -1), (-1, -1), (-1, 1), (2, 1), (-2, -1)] {
+                        for dpos in [-1i64, 0, 1] {
+                            // record count = UTC instant + previous correction
+                            let l1 = x + dpos + c0 as i64;
+                            let mut leaps: Vec<(i64, i32)> = vec![];
+                            let mut c = 0i32;
+                            let mut tcur = l1 - (c0.unsigned_abs() as i64 + 1) * DAY28;
+                            while c != c0 {
+                                c += c0.signum();
+                                leaps.push((tcur, c));
+                                tcur += DAY28;
+                            }
+                            leaps.push((l1, c0 + step));
+                            // the table: one transition in 2001 carrying the type the rule prescribes there
+                            let mut z = MZone { trans: vec![], types: vec![ms, md, MType::new(-7200, false, Some("LMT"))], leaps, rule: Some(rule.clone()) };
+                            let u0 = line.sy(2001) + 40 * 86400;
+                            let ty = match z.rule_type(cyc, u0) {
+                                Ok(t) => *t,
+                                Err(_) => continue,
+                            };
+                            z.trans = vec![(u0 - 1000, 2), (u0, if ty.dst { 1 } else { 0 })];
+                            let iz = ImplZone::from_model(&z).unwrap();
+                            let zr = match iz.zref() {
+                                Ok(zr) => zr,
+                                Err(e) => {
+                                    rec.violation("behind_table_with_leaps", json!({"kind":"zone","zone":zone_json(&z)}), json!("accepted"), json!(err_name(&e)));
+                                    continue;
+                                }
+                            };
+                            tl.rules += 1;
+                            for yy in [y - 1, y, y + 1] {
+                                for xx in [line.sy(yy), line.ey(yy)] {
+                                    for d in -3i64..=3 {
+                                        let u = xx + d;
+                                        tl.evals += 1;
+                                        let exp = z.forward(cyc, u);
+                                        let got = zr.find_local_time_type(u);
+                                        let ok = matches!((&exp, &got), (Ok(m), Ok(l)) if same_type(l, m));
+                                        if !ok {
+                                            rec.violation("behind_table_with_leaps", json!({"kind":"zone_probe","zone":zone_json(&z),"t":u}), json!(format!("{:?}", exp.map(mtype_json))), json!(format!("{:?}", got.map(type_json))));
+                                        }
+                                    }
+                                }
+                            }
+                        }
+                    }
+                }
+                tl
+            });
+            match res {
+                Ok(t) => tl = tl.merge(t),
+                Err(m) => rec.violation("behind_table_with_leaps", json!({"kind":"rule","rule":spec_json(r),"t":null,"year":2010}), json!("no panic"), json!(m)),
+            }
+            tl
+        })
+        .reduce(Tally::default, Tally::merge);
+    rec.sub("behind_table_with_leaps", json!({"zones": t.rules, "lookups": t.evals}));
+    Tally { rules: 0, ..t }
+}
+
 /// the tie families used at the ends of the year range: last vs 4th week day of February at the same UTC instant (both
 /// orders), and J60 vs day 60 counted from zero one day apart (both orders)
 pub fn tie_specs() -> Vec<RuleSpec> {
@@ -432,6 +528,7 @@ pub fn run(args: &Args) -> i32 {
         rec.sub("full_time_offset_product", json!({"explored": t.rules, "refused_by_constructor": t.rejected, "not_interleaving_or_degenerate": t.skipped_class, "probes": t.evals}));
         total = total.merge(t);
     }
+    total = total.merge(sweep_behind_table_with_leaps(&cyc, &tabs, &rec));
     // C19 digest mode: the partial-tie family is left to C04 itself
     if !args.digest_mode {
         total = total.merge(sweep_partial_ties(&tabs, &rec, thorough, kf1_open));
@@ -499,6 +596,32 @@ pub fn replay(case: &Value, args: &Args) -> i32 {
     let cyc = Cycle::build();
     let tabs = Tables::build(&cyc);
     let kind = case["kind"].as_str().unwrap_or("");
+    if kind == "zone_probe" || kind == "zone" {
+        // a lookup behind a table in a zone with leap seconds
+        let z = zone_from_json(&cyc, &case["zone"]);
+        let mut bad = false;
+        for _ in 0..2 {
+            let iz = ImplZone::from_model(&z).unwrap();
+            match iz.zref() {
+                Ok(zr) => {
+                    if let Some(u) = case["t"].as_i64() {
+                        let exp = z.forward(&cyc, u);
+                        let got = zr.find_local_time_type(u);
+                        println!("model {:?} impl {:?}", exp.as_ref().map(|m| mtype_json(m)), got.as_ref().map(|l| type_json(l)));
+                        if !matches!((&exp, &got), (Ok(m), Ok(l)) if same_type(l, m)) {
+                            bad = true;
+                        }
+                    }
+                }
+                Err(e) => {
+                    println!("zone refused: {}", err_name(&e));
+                    bad = true;
+                }
+            }
+        }
+        println!("{}", if bad { "REPLAY: violation reproduced" } else { "REPLAY: case passes" });
+        return bad as i32;
+    }
     if kind != "rule" && kind != "string" && kind != "extreme" {
         return 2;
     }
